@@ -1153,6 +1153,9 @@ parameters by position and data flow), so behaviour-preserving edits leave it tr
 * `promisePairedWithRequest`, `runAnswersItsOwnRequest` — TransportConn `Delivery`: the response of an exchange
   goes to the promise created with that request.
 * `loneOnlyWhenAlone` — `Event.lone` requires `aloneWaiting`.
+* `readFailureCloseDropsBuffered` — `finish io` sets `closed`, and `closed_is_final` says no call takes a frame after
+  that: in the code the close of an unreadable response must also drop what is buffered of it, under the read lock
+  (finding C06-D30: closing the net.Conn alone left the leftover in the bufio.Reader for the waiting callers).
 * `wireSitesThreaded`, `remainOnlyFromPrims`, `batchCallbacksThreaded` — the hypothesis of
   `wire_discipline_consumes_frame` below.
 * `batchCloseDiscards`, `discardRewindsToWire`, `batchCloseKeepsOnlyKafkaOrShortBuffer`, `readValueAccountsBytes`,
@@ -1173,7 +1176,7 @@ theorem structural_facts_hold :
     Gen.MuxFacts.wireSitesThreaded = true ∧ Gen.MuxFacts.remainOnlyFromPrims = true ∧
     Gen.MuxFacts.batchCallbacksThreaded = true ∧ Gen.MuxFacts.hooksInsideCriticalSections = true ∧
     Gen.MuxFacts.promisePairedWithRequest = true ∧ Gen.MuxFacts.runAnswersItsOwnRequest = true ∧
-    Gen.MuxFacts.loneOnlyWhenAlone = true := by decide
+    Gen.MuxFacts.loneOnlyWhenAlone = true ∧ Gen.MuxFacts.readFailureCloseDropsBuffered = true := by decide
 
 /-- **Every reader in the size-threading discipline consumes its frame whole.**  Model/BatchBytes.lean spells out the
 magic-0/1 path; the rest of message_reader.go (record batches, varints, record headers, both decompression sites,
@@ -1340,8 +1343,14 @@ def closeIdleConnsModelRow (_ : List String) : List String :=
       (if s1.closedGroups.contains 1 then ["markClosed"] else []) ++ ["unlock"] ++
       (if (s1.conns 1).st == .closing then ["closeConn"] else [])
 
+/-- how (*Conn).ApiVersions ends the exchange (since /repo 2b8f9f7): the body parsed and nothing left → `ok`; the broker's
+error code and nothing left → `kafka` (conn kept, frame consumed); a body that could not be read, or bytes left after
+the list (checked by `expectZeroSize` unless the read already failed) → `io`: the conn is closed -/
+def apiVersionsOutcome (bodyKafka bodyOther trailing : Bool) : Body :=
+  if bodyOther || trailing then .io else if bodyKafka then .kafka else .ok
+
 /-- (*Conn).ApiVersions uses the multiplexer without `do`: the read lock taken by waitResponse is released by a
-deferred unlock, and no outcome of the body closes the conn (the hook reports it as `finish ok`) -/
+deferred unlock in every case; the conn is closed exactly when ConnMux's `finish` with `apiVersionsOutcome` closes it -/
 def apiVersionsModelRow (sc : List String) : List String :=
   if flag sc "requestFailed" then ["doRequest", "return"]
   else if flag sc "waitFailed" then ["doRequest", "waitResponse", "return"]
@@ -1349,11 +1358,12 @@ def apiVersionsModelRow (sc : List String) : List String :=
     match run [⟨1, 0⟩] [.write 0 true 1, .take 1] with
     | none => ["model: no such state"]
     | some s0 =>
-      match step s0 (.finish 1 .ok) with
+      let other := sc.contains "body=other"
+      match step s0 (.finish 1 (apiVersionsOutcome (sc.contains "body=kafka") other (flag sc "trailingBytes"))) with
       | none => ["model: event not enabled"]
       | some s1 =>
         ["doRequest", "waitResponse"] ++ (if s0.rlock.isSome && s1.rlock.isNone then ["defer:unlock"] else []) ++
-        ["read"] ++ (if s1.closed then ["close"] else []) ++ ["return"]
+        ["readBody"] ++ (if other then [] else ["checkSize"]) ++ (if s1.closed then ["close"] else []) ++ ["return"]
 
 /-- a v2 fetch response body: header (watermark `hwm`) and one empty magic-1 message -/
 def sampleFetchBody (hwm : UInt8) : KV.Bytes :=
